@@ -21,7 +21,8 @@ RULE = ("random programs of 5-40 events over objects drawn from {Operator, SelfA
         "the documented idiom, a harness exception at a random event (50 %) or a failpoint at a random library statement (15 %); context operators are "
         "Hamiltonians and SelfAdjointOperators and are themselves written between visits (element writes through the managed array, assignment, "
         "remove/subtract/recover_cutoff_coupling, Operator.__add__), visited with and without being read or protected ('revisit' programs); objects "
-        "extracted with at(t) from evolutions and evolution superoperators are tracked next to their source. "
+        "extracted with at(t) from evolutions and evolution superoperators are tracked next to their source; the repository's own unit tests run in-process under "
+        "the frame-level leak detector (every library frame must return with the basis stack it was entered with). "
         "distinct = (event-kind sequence, nesting profile, exception class); non-trivial iff at least one object was actually transformed (read inside a "
         "context whose transformation is not the identity) before the final check.")
 ASSUMPTIONS = ["the transformation matrix the library puts on its stack is *validated* (orthogonal; diagonalises the context operator with ascending eigenvalues) "
@@ -55,6 +56,8 @@ def gen_cases(tier, rng):
         pool = ["cutoff", "subtract", "recover", "assign", "add"] if kind == "Hamiltonian" else ["element", "element", "add", "assign"]
         cases.append({"cls": "revisit", "seed": int(rng.integers(1 << 30)), "dim": int(rng.integers(3, 6)), "kind": kind,
                       "first": str(rng.choice(["unread", "protected", "read"])), "write": [str(w) for w in rng.choice(pool, size=int(rng.integers(1, 4)))], "cost": 0.5})
+    from qrv import repotests
+    cases.extend(repotests.gen_cases(tier))
     return cases
 
 
@@ -174,6 +177,10 @@ def present(o):
 
 
 def run_case(case, ctx):
+    if case["cls"] == "repo-tests":
+        from qrv import repotests
+        repotests.run_module(case, ctx, ("basis_stack", "n_basis_transformations", "_in_eigenbasis_of_context"), "bookkeeping-restored", "frame-leaks-basis-state:")
+        return
     import quantarhei as qr
     from quantarhei import qm, Manager
     m = Manager()
